@@ -449,7 +449,7 @@ def gen_descriptors(tier, rng):
         yield D("mode_dot", [g.arr((n,)), g.arr((2, n))], mode=0, transpose=False)
         yield D("mode_dot", [g.arr((n, 2), True), g.arr((n,), True)], mode=0, transpose=True)
     yield D("mode_dot", [g.arr((2, 3)), g.arr((2, 2))], valid=False, mode=1, transpose=False)
-    yield D("mode_dot", [g.arr((2, 3)), g.arr((2, 2))], valid=False, mode=0, transpose=True)
+    yield D("mode_dot", [g.arr((2, 3)), g.arr((3, 2))], valid=False, mode=0, transpose=True)
     yield D("mode_dot", [g.arr((2, 3)), g.arr((2,))], valid=False, mode=1, transpose=False)
     yield D("mode_dot", [g.arr((2, 3)), g.arr((2, 3, 1))], valid=False, mode=1, transpose=False)
     yield D("mode_dot", [g.arr((2, 3)), g.arr((2, 3))], valid=False, mode=2, transpose=False)
